@@ -10,7 +10,7 @@ TRUSTED_BASE = [
 ]
 ASSUMPTIONS = ['edge lists are acyclic and non-empty; owl:Thing is not an input term',
                '__contains__ is exercised with TermId operands (its declared signature)']
-THEOREM = 'C03_impl_agree / C03_pred_spec / C03_converse / C03_idx_bijection / C03_idx_api_mirror / C03_arg_forms'
+THEOREM = 'C03_implementations_agree / C03_predicates_are_membership / C03_converse / C03_index_bijection / C03_index_api_mirrors_node_api / C03_argument_forms'
 FACTORIES = ['idx', 'inc', 'bld']
 
 
